@@ -288,6 +288,34 @@ def _nontrivial(t1, t2, offset, max_diff):
     return False
 
 
+def shard_subsets(arg):
+    """one trajectory has every slot of a larger grid, the other every subset:
+    the matched index list of the longer trajectory then runs through all
+    index patterns (regular, almost regular, irregular)"""
+    nslots, masks = arg
+    acc = Acc()
+    full = 2**nslots - 1
+    for m in masks:
+        for jit in JITTERS:
+            for swap in (False, True):
+                for mode in ("quat+read", "se3"):
+                    ta = _stamps(m, nslots, 0.0)
+                    tb = _stamps(full, nslots, 0.0, jit)
+                    sa, sb = _slots(m, nslots), _slots(full, nslots)
+                    if swap:
+                        ta, tb, sa, sb = tb, ta, sb, sa
+                    case = {"t1": ta, "t2": tb, "slots1": sa, "slots2": sb,
+                            "offset": 0.0, "max_diff": 0.25, "mode": mode}
+                    msgs, info = run_case(case)
+                    acc.count("evaluations")
+                    acc.count("transitions", 2)
+                    acc.outcome(info.get("outcome", "?"))
+                    if msgs:
+                        acc.violation("assoc", "; ".join(msgs[:3]), case,
+                                      _cls(msgs))
+    return acc
+
+
 def large_cases(thorough):
     """a few structured large instances (different rates, jitter, gaps,
     disjoint ranges, epoch offsets); all stamps are multiples of 2^-10"""
@@ -342,6 +370,9 @@ def run(ctx):
         pmap_acc(ctx, __name__, "shard_run",
                  [(small, s, ("se3", "quat", "se3+read", "quat+read"), ctx.tier)
                   for s in shard(range(1, 2**small), 16)]))
+    for ns in (7, 9) + ((10, ) if ctx.thorough else ()):
+        acc.merge(pmap_acc(ctx, __name__, "shard_subsets",
+                           [(ns, s) for s in shard(range(1, 2**ns), 32)]))
     acc.merge(pmap_acc(ctx, __name__, "shard_large",
                        [[c] for c in large_cases(ctx.thorough)]))
     # F3's published witness, literally (off-grid stamps)
